@@ -28,7 +28,7 @@ PROPS = {
         "module": "SimilarVerif.Props.C10",
         "suites": ["script", "ucompact"],
         "rule": "script: every valid raw script (exact carried indices, split runs, insert-before-delete) over all pairs up to length 3 (thorough 4) over 2 symbols, plus random longer scripts with heavy repetition, through Replace, Compact, Compact+Replace, with the swap-repair switch off and on; non-trivial = script has a change and >= 2 calls; ucompact: cleanup_diff_ops and ONE call of shift_diff_ops_up / shift_diff_ops_down at every change of every valid script over pairs up to length 3 (thorough 4) over 2 symbols plus random scripts (ops and returned pointer, shipped and repaired swap) compared with the model; validator: still a valid script with the same deleted/inserted item counts after every single helper call",
-        "theorem_status": "full: Replace on all valid scripts; Compact (whenever it returns: validity, item counts, cost) and its totality/termination on valid input with exact or run-relative carried indices (quadratic round bound found by the termination proof); Compact then Replace valid, cost preserving, alternating",
+        "theorem_status": "full: Replace on all valid scripts; Compact (whenever it returns: validity, item counts, cost) and its totality/termination on valid input with exact or run-relative carried indices (quadratic round bound found by the termination proof); Compact then Replace valid, cost preserving, alternating; through both adapters the FULL normal form of C09 incl. the latest-position clause (Headline C10_statement); delete_arm_never_slides: the two shift-deletions arms of the clean-up are dead for every environment",
         "level_text": "Lean theorems for Replace and for Compact over any valid script (validity, item counts, alternation, exactness under the repaired swap, finish once, totality); Compact model compared with the code on all valid scripts of a small scope and validated by an independent walker/normal-form checker.",
         "level_note": "the model's loop bounds (fuel) are proved sufficient (CompactT.cleanup_total_*); a `fuel` answer of the driver would be a disagreement",
     },
@@ -105,7 +105,7 @@ PROPS.update({
         "module": "SimilarVerif.Props.C09",
         "suites": ["cap", "script", "deadline", "text", "ucompact"],
         "rule": "cap/deadline/script as for C02/C07/C10; the normal-form validator (alternation, no empty op, delete+insert merged, insert at latest position) runs on every captured op list and on every arbitrary script pushed through Compact+Replace; text: TextDiff::ops of every text diff of the text suite through the same validators (normal form / exact positions with known-finding attribution / minimality and f32 ratio); ucompact: cleanup_diff_ops and ONE call of shift_diff_ops_up / shift_diff_ops_down at every change of every valid script (ops and returned pointer, shipped and repaired swap) compared with the model; validator: valid script, same item counts, no insertion left that could slide down",
-        "theorem_status": "clauses 1-3 (alternation, no adjacent changes, no empty op) full for Replace on any valid script; clause 4 (insertion at latest position) full for the clean-up output (CompactT.cleanup_insert_latest, both swap variants); END TO END (capture_normal_form / capture_normalForm): for every algorithm, in-bounds ranges and EVERY clock the capture function returns a valid op list satisfying all four clauses (clause 4 carried through Replace: in the cleaned list every insertion is followed by an equal op or nothing, so a lone insertion before an equal run reaches the output unchanged)",
+        "theorem_status": "clauses 1-3 (alternation, no adjacent changes, no empty op) full for Replace on any valid script; clause 4 (insertion at latest position) full for the clean-up output (CompactT.cleanup_insert_latest, both swap variants); END TO END (capture_normal_form / capture_normalForm): for every algorithm, in-bounds ranges and EVERY clock the capture function returns a valid op list satisfying all four clauses (clause 4 carried through Replace: in the cleaned list every insertion is followed by an equal op or nothing, so a lone insertion before an equal run reaches the output unchanged); Headline C09_statement: CanonicalNormalForm (five clauses incl. item-level deletes-before-inserts and Replace ops with both parts non-empty) for capture_diff, for the ops of every text diff, and for any valid script through Compact+Replace",
         "level_text": "Lean theorems: clauses 1-3 for the Replace stage on every valid script, clause 4 (insertion at its latest position) for the output of the clean-up on every valid script (shipped and repaired swap); clean-up model compared with the code on all valid scripts of a small scope and on every captured diff.",
         "level_note": "clause 4 is proved for the clean-up output; its transport through the Replace stage (which merges neighbours) is covered by the normal-form validator on every captured op list",
     },
@@ -114,7 +114,7 @@ PROPS.update({
         "module": "SimilarVerif.Props.C11",
         "suites": ["cap", "deadline", "text", "ucompact"],
         "rule": "cap as for C02, without deadline; every captured op list is checked for exact positions; a failing case is re-run with the cfg(similar_verif) swap-repair switch and attributed to the known finding only if the failure disappears; text: TextDiff::ops of every text diff of the text suite through the same validators (normal form / exact positions with known-finding attribution / minimality and f32 ratio); ucompact: the clean-up and its two shift helpers one call at a time, shipped and repaired swap, compared with the model",
-        "theorem_status": "the unchanged code violates C11 (known finding KF-compact-swap): counterexample theorem on the shipped model; with the swap repair the clean-up keeps exactness for all valid scripts; shipped and repaired variants differ only in carried indices; Replace/LCS/Myers-without-deadline stages exact; end to end: captured Myers ops exact with the repaired swap (unconditional); capture_exact_repaired_total: with the repaired swap all three algorithms return exact captured ops without deadline (LCS for every clock: capture_lcs_exact_repaired; Patience raw stream exact: patience_raw_exact); expired_deadline_raw_not_exact: the raw Myers fallback insert is Carried but not Exact (rfl on a 2x2 input)",
+        "theorem_status": "the unchanged code violates C11 (known finding KF-compact-swap): counterexample theorem on the shipped model; with the swap repair the clean-up keeps exactness for all valid scripts; shipped and repaired variants differ only in carried indices; Replace/LCS/Myers-without-deadline stages exact; end to end: captured Myers ops exact with the repaired swap (unconditional); capture_exact_repaired_total: with the repaired swap all three algorithms return exact captured ops without deadline (LCS for every clock: capture_lcs_exact_repaired; Patience raw stream exact: patience_raw_exact); expired_deadline_raw_not_exact: the raw Myers fallback insert is Carried but not Exact (rfl on a 2x2 input); FIFTH SESSION: capture_exact_repaired_every_clock -- with the repaired swap the captured ops are exact for every algorithm and EVERY clock, also when a deadline expires in the middle of Myers or Patience (Lemmas/CompactLoose.lean, CaptureExactClock.lean); shipped and repaired results agree end to end on everything but carried indices (Headline C11_statement (d))",
         "level_text": "Lean theorems: negation witness for the shipped swap, positive theorem for the repaired swap, attribution lemma; both variants of the implementation compared with both variants of the model.",
         "level_note": "KNOWN FINDING listed in known_findings.json; the check prints KNOWN-FINDING and exits 0 only when every failure is attributable to the swap site",
     },
@@ -154,7 +154,7 @@ PROPS.update({
         "module": "SimilarVerif.Props.C05",
         "suites": ["udiff", "api"],
         "rule": "udiff: line diffs of all texts of up to 4 lines from {a LF, b LF, a CRLF, c CR} optionally ending in a line without terminator, random longer line texts with few edits (several hunks), bytes with invalid UTF-8 x 3 algorithms x radius 0..3 (thorough 0..4) x header on/off x Display/to_writer x str/bytes; the request carries the implementation's ops and tokens, the model renders from them; validator: strict parse + apply of the real output, header counts/starts/order, context <= radius, deletions before insertions, marker placement, writer vs Display; non-trivial = output has >= 1 hunk and context; api: every thin public entry point (per-algorithm modules, diff/diff_slices, capture wrappers, Capture::into_*, TextDiff::from_*, diff_slices, owned text types, builder/getter/formatter re-use, Change/InlineChange accessors and Display, udiff::unified_diff, remapper slices, get_close_matches on bytes) against its canonical path on exhaustive small and random cases (implementation-only, metamorphic)",
-        "theorem_status": "structured part full under Exact (positions exact, C11): renderer total, output = structured hunks, strict application gives new, counts/positions/order, equal inputs render empty, context <= radius, deletions first, line and range formats. Byte level: a strict parser of the unified format is proved to read the printed bytes back as exactly the structured hunks (header names, all three range forms, count-driven bodies, missing-newline markers, LF/CRLF/CR terminators) and the parsed hunks patch old into new (Lemmas/UdiffParse.lean; to_writer path with hints, line tokens, names without LF). Display vs writer: display_is_lossy_writer (the Display output is exactly the lossy UTF-8 decoding of the to_writer output, every input, both hint settings) and display_eq_writer_on_utf8. The unchanged code violates the Exact hypothesis at the compaction swap (known finding): counterexample theorem included",
+        "theorem_status": "structured part full under Exact (positions exact, C11): renderer total, output = structured hunks, strict application gives new, counts/positions/order, equal inputs render empty, context <= radius, deletions first, line and range formats. Byte level: a strict parser of the unified format is proved to read the printed bytes back as exactly the structured hunks (header names, all three range forms, count-driven bodies, missing-newline markers, LF/CRLF/CR terminators) and the parsed hunks patch old into new (Lemmas/UdiffParse.lean; to_writer path with hints, line tokens, names without LF). Display vs writer: display_is_lossy_writer (the Display output is exactly the lossy UTF-8 decoding of the to_writer output, every input, both hint settings) and display_eq_writer_on_utf8. The unchanged code violates the Exact hypothesis at the compaction swap (known finding): counterexample theorem included; END TO END (Headline C05_statement (h)): for the repaired swap, every algorithm and EVERY clock the Exact hypothesis is discharged -- two texts -> line diff -> render -> strict parse -> apply gives the new text (via C11.capture_exact_repaired_every_clock)",
         "level_text": "Lean theorems about the model renderer for all valid exact op lists, radii and settings; rendered bytes of the implementation compared with the model byte for byte (Display and writer), and parsed + strictly applied by an independent validator.",
         "level_note": "KNOWN FINDING KF-compact-swap-udiff (stale carried index after the compaction swap feeds wrong header positions); a failing case is attributed to it only if it disappears when the diff is rebuilt with the cfg(similar_verif) swap repair",
     },
@@ -181,7 +181,7 @@ PROPS.update({
         "module": "SimilarVerif.Props.C17",
         "suites": ["remap"],
         "rule": "remap: 5 tokenizers x str/bytes x 3 algorithms over small exhaustive and random text pairs incl. empty and multi-byte; TextDiffRemapper::iter_slices for every op plus the six utils::diff_* helpers; non-trivial = >= 2 ops",
-        "theorem_status": "full for any valid op list over tiling tokens: no panic, exact byte ranges, tags of slice-wise expansion, slice = concatenation of its tokens, no empty slice, both texts reconstructed byte for byte; the one-call helpers diff_chars/words/unicode_words/graphemes/lines end to end (helpers_total, helpers_nonempty, helpers_reconstruct_old/new, helpers_tags: for tokens that tile the texts, every algorithm, every clock: they return, never an empty slice, both texts reconstructed); text_diff_total: the text diff of any two token arrays returns a valid op list for every algorithm and clock",
+        "theorem_status": "full for any valid op list over tiling tokens: no panic, exact byte ranges, tags of slice-wise expansion, slice = concatenation of its tokens, no empty slice, both texts reconstructed byte for byte; the one-call helpers diff_chars/words/unicode_words/graphemes/lines end to end (helpers_total, helpers_nonempty, helpers_reconstruct_old/new, helpers_tags: for tokens that tile the texts, every algorithm, every clock: they return, never an empty slice, both texts reconstructed); text_diff_total: the text diff of any two token arrays returns a valid op list for every algorithm and clock; diff_slices (modelled as utilsDiffSlices): slices_helper_total -- it returns, no slice is empty, the slices expand to the items of the captured ops, which count both inputs consecutively (every algorithm and clock)",
         "level_text": "Lean theorems about the model of SliceRemapper/TextDiffRemapper for all token length lists and valid scripts; byte ranges of the implementation's slices compared with the model; helpers validated by reconstruction.",
         "level_note": "the tokenizer enters the helper theorems through the Tiling hypothesis that C06 proves for the non-unicode tokenizers (unicode ones: relative to the segmenter contract)",
     },
